@@ -14,7 +14,7 @@ EXTRA_PROPS = ["QuantemModel.Props.C16Ext"]   # growth 6: propagator stacks, com
 MANIFEST_ENTRY = {
     "category": "proof",
     "text": "Lean 4 theorems over an executable model (generic numeric carrier, defining DFT sums) of the ptychography forward-model operators: index_add scatter is the exact adjoint of patch gathering for every index list (repeats, wrap) - also for the model WITH torch's argument checks and the partial writes of index_add_ before an IndexError, in every history of accepted and rejected calls (adjoint_checked, adjoint_history, rejected_calls_erasable, scatter_checked_ok_iff); phase ramps and Fresnel kernels have unit modulus, compose additively and invert; Fourier shift and propagation preserve total intensity (Parseval for the modelled DFT, proved from root-of-unity orthogonality); integer shifts equal circular rolls; pure-phase multislice exit waves carry the probe's total intensity for any number of slices/modes, and back-transmitting / back-propagating them through the chain of ObjectPixelated.backward returns the entrance wave (backward_forward_identity); the Fourier magnitude projection is idempotent and returns exactly the measured amplitudes (single state everywhere incl. exactly vanishing Fourier coefficients, mixed state wherever the current far field is non-zero); reset_recon restores the object constraints after every history of accepted / rejected (partially written) constraint updates, and the class-level defaults never change (reset_restores_defaults, defaults_never_change, rejected_add_is_noop, reset_modulus_neutral). Every run ties the model to the code by exact integer streams (gather/scatter, integer shifts, call histories with raising calls, constraint-dictionary sessions) and float streams (translation operator, shift, propagators, propagation, multislice overlap, backward chain, detector, estimate_amplitudes/intensities, projection) and evaluates the identities on the real functions, on real Ptychography instances, over call histories with kept results, raising calls, in-place updated argument objects and reset/configure/reset sessions. Growth 6 (Props/C16Ext.lean, Model/PtychoOpsExt2.lean): propagator STACKS - every gap of a stack carries the single-gap kernel of its own thickness (stack_gap_eq_single, stack_gap_indep_of_stack), a run through a stack of arbitrary thicknesses is one propagation by their sum (stack_compose), preserves the intensity (stack_energy), does not depend on the order of the gaps (stack_perm), may be cut / merged anywhere (stack_append, stack_merge_block), is the identity when the thicknesses sum to zero ([d,-d]: stack_inverse, stack_d_minus_d), and IS the modelled overlap_projection through vacuum slices (overlap_vacuum_eq_stack, overlap_vacuum_compose); integer shifts compose to the roll by the sum and are periodic in each axis length separately (shift_int_compose, shift_int_periodic); expand_dim / dtype of the translation operator never change a value (translation_opt_values / _axes / _unit_add). Streams `stack` (genuine multislice Ptychography instances through the public API: kernels per gap, refresh after slice_thicknesses / tilt changes, learn_probe_tilt branch, two instances alive, >= 2 modes with >= 2 slices) and `geom` (non-square shapes both ways, shifts negative or >= axis length, patch windows wrapping at the last row / column, several sum_patches results alive, option combinations, call sequences with changing shape).",
-    "note": "Trusted: Lean kernel + propext/Classical.choice/Quot.sound; torch/NumPy FFT assumed to compute the defining sums (exercised by every float case); IEEE rounding outside the theorems (measured: float32 fftfreq/complex64 propagators limit translation/propagation identities to ~1e-6, 5e-4 rule). Mixed-state exactness is undecidable at pixels whose current far field is exactly zero (code defines the output as 0 there); for a constant mixed-state exit wave idempotence is evaluated in the far field at the other pixels (the operator is discontinuous at far field = 0 and rounding refills exact zeros). Real-valued inputs of fourier_shift_expand (the `.real` branch) are covered by correspondence only - the property quantifies over complex arrays. Measured only: that modulus-neutral constraints (the gates of apply_hard_constraints, modelled as a predicate on the constraint dictionary) give unit-modulus patches - apply_hard_constraints itself belongs to C10's model; absence of hidden state / aliasing in the real code (history, rhist, session streams). Formula code is tied by correspondence + independent oracles, not by mechanical translation. Growth 6: that the instance's kernels follow its CURRENT thicknesses / tilt (setter refresh, learn_probe_tilt branch) is measured by the `stack` stream on real instances, not proved (the Lean model is heap-free); the dtype= option is modelled as a value-preserving cast (its rounding is outside the theorems).",
+    "note": "Trusted: Lean kernel + propext/Classical.choice/Quot.sound; torch/NumPy FFT assumed to compute the defining sums (exercised by every float case); IEEE rounding outside the theorems (measured: float32 fftfreq/complex64 propagators limit translation/propagation identities to ~1e-6, 5e-4 rule). Mixed-state exactness is undecidable at pixels whose current far field is exactly zero (code defines the output as 0 there); for a constant mixed-state exit wave idempotence is evaluated in the far field at the other pixels (the operator is discontinuous at far field = 0 and rounding refills exact zeros). Real-valued inputs of fourier_shift_expand (the `.real` branch) are covered by correspondence only - the property quantifies over complex arrays. Measured only: that modulus-neutral constraints (the gates of apply_hard_constraints, modelled as a predicate on the constraint dictionary) give unit-modulus patches - apply_hard_constraints itself belongs to C10's model; absence of hidden state / aliasing in the real code (history, rhist, session streams). fourier_translation_operator is additionally tied by a mechanical translator (harness/translator/ptychokernel2lean.py traces the NumPy branch of the current source on symbolic positions every run -> Generated/PtychoKernels.lean -> generated_table_eq_model / generated_eq_model / generated_axes_eq_model in Props/C16Ext.lean); _compute_propagator_arrays (torch-only code) is still tied by correspondence + independent oracles only. Growth 6: that the instance's kernels follow its CURRENT thicknesses / tilt (setter refresh, learn_probe_tilt branch) is measured by the `stack` stream on real instances, not proved (the Lean model is heap-free); the dtype= option is modelled as a value-preserving cast (its rounding is outside the theorems).",
     "technique": "Lean 4 proof (Finset sum rearrangement, roots of unity, induction on slices / call histories / constraint sessions) + model-vs-implementation correspondence",
 }
 RULE = ("a case is one generated input (or call history / session) pushed through the real operator(s) and the model; distinct non-trivial = distinct "
@@ -38,6 +38,18 @@ ASSUMPTIONS = [
 EXPLANATION = ("Theorems in Props/C16.lean are about Model/PtychoOps.lean at the real-number instance; every run pushes the same inputs "
                "through the real torch/NumPy code and the Lean model (exactly on integers, to tolerance on floats) and evaluates each "
                "identity of the property on the real outputs.")
+
+def pregenerate():
+    """called by the runner before `lake build`: TRACE the current fourier_translation_operator of $QVERIF_REPO on symbolic
+    positions and rewrite lean/QuantemModel/Generated/PtychoKernels.lean (frequency numerators per pixel, inserted unit axes);
+    Props/C16Ext.lean proves generated = model (generated_table_eq_model, generated_eq_model, generated_axes_eq_model).
+    A construct the tracer cannot follow comes back as a note (the last good file stays); never raises."""
+    try:
+        from translator import ptychokernel2lean
+        return ptychokernel2lean.regenerate()
+    except Exception as e:   # noqa: BLE001
+        return f"ptychokernel2lean unavailable: {type(e).__name__}: {str(e)[:120]}"
+
 
 TOL64 = 1e-9     # float64 paths
 TOL32 = 5e-4     # paths where the library forces float32 / complex64
